@@ -209,7 +209,7 @@ _mk("C01",
     extra_tb=[TB_FLOAT, "engines (grok, xmlquery, dateparse, strconv, regexp, encoding/json) are oracles: answered by the real libraries, assumed not to panic"])
 
 _mk("C06",
-    ["Platypus.Properties.C06", "Platypus.Properties.C06Facts", "Platypus.Properties.FrontEnd"],
+    ["Platypus.Properties.C06", "Platypus.Properties.C06Facts", "Platypus.Properties.FrontEnd", "Platypus.Properties.LayoutSemantics"],
     rule="exhaustive: every ordered pair of the 14 binary operators in both nestings (paren node exactly where the table requires) and with unary operands x 3 layouts; the 24 slice forms x 4 layouts; "
          "random statement trees (depth <= 4) over every expression and statement form (calls with positional/named arguments, index/attribute/slice chains, list/map literals, all assignment kinds, if/elif/else, the 8 for shapes, for-in) "
          "printed with only the parentheses held as paren nodes in 4 layout families (canonical, tight, random line ends at every SPACE_EOLS place with CR/blank variation, comments); "
